@@ -1440,7 +1440,13 @@ fn timed(cx: &mut Ctx, work: &std::path::Path) {
 		}
 	}
 
-	// run them concurrently (each has its own connection and reader / writer threads), report in order
+	deliver_all(cx, &scns, work, "timed");
+}
+
+/// run the scenarios concurrently (each has its own connection and reader / writer threads), evaluate the
+/// oracle, print one `codec timed` line per delivery, in order
+fn deliver_all(cx: &mut Ctx, scns: &[Scn], work: &std::path::Path, tag: &str) {
+	let thorough = cx.thorough;
 	let batch = if thorough { 24 } else { 8 };
 	let t_all = Instant::now();
 	let mut results: Vec<Option<TimedRes>> = (0..scns.len()).map(|_| None).collect();
@@ -1480,15 +1486,15 @@ fn timed(cx: &mut Ctx, work: &std::path::Path) {
 			if off > 0 {
 				let st = scn.conv.state_at(off);
 				if *d >= 2000 {
-					cx.stat(&format!("timed: pause >= 2 s while the codec waits in state {}", st));
-					cx.stat(&format!("timed: pause of {} ms", d));
+					cx.stat(&format!("{}: pause >= 2 s while the codec waits in state {}", tag, st));
+					cx.stat(&format!("{}: pause of {} ms", tag, d));
 				} else {
-					cx.stat("timed: gaps < 2 s");
+					cx.stat(&format!("{}: gaps < 2 s, next byte awaited in state {}", tag, st));
 				}
 			}
 			off += f.len();
 		}
-		cx.stat(if scn.outside { "timed: deliveries with a pause outside the I/O timeouts (model correspondence only)" } else { "timed: deliveries with tolerated pauses" });
+		cx.stat(&if scn.outside { format!("{}: deliveries with a pause outside the I/O timeouts (model correspondence only)", tag) } else { format!("{}: deliveries with tolerated pauses", tag) });
 		let want: Vec<Exp> = scn.conv.exp.iter().filter(|e| !matches!(e, Exp::Unknown(_))).cloned().collect();
 		if !scn.outside && (r.got != want || r.pongs != scn.conv.pings || r.closed) {
 			cx.fails += 1;
@@ -1499,6 +1505,22 @@ fn timed(cx: &mut Ctx, work: &std::path::Path) {
 				scn.cuts.iter().map(|c| scn.conv.state_at(c.0)).collect::<Vec<_>>(),
 				short(&r.got), short(&want), r.pongs, scn.conv.pings, r.closed
 			));
+		}
+		// attachments: exactly one end-of-attachment per archive, nothing after it
+		let n_arch = want.iter().filter(|e| matches!(e, Exp::AttSum(_, _))).count();
+		if n_arch > 0 && !scn.outside {
+			let ends = r.got.iter().filter(|e| matches!(e, Exp::Att(_, 0, _))).count();
+			let sums = r.got.iter().filter(|e| matches!(e, Exp::AttSum(_, _))).count();
+			let read: usize = r.got.iter().map(|e| if let Exp::Att(n, _, _) = e { *n } else { 0 }).sum();
+			let want_read: usize = want.iter().map(|e| if let Exp::AttSum(n, _) = e { *n } else { 0 }).sum();
+			cx.stat(&format!("{}: archives with an attachment delivered", tag));
+			if ends != n_arch || sums != n_arch || read != want_read {
+				cx.fails += 1;
+				cx.out.raw(&format!(
+					"#ORACLE-FAIL C19 attachment streamed after a message: {} archives sent, {} updates with left == 0, {} completed files, {} attachment bytes reported of {} ({}; version {}, fragments at {:?})",
+					n_arch, ends, sums, read, want_read, scn.name, scn.conv.ver, scn.cuts.iter().map(|c| c.0).collect::<Vec<_>>()
+				));
+			}
 		}
 		if scn.outside {
 			cx.out.raw(&format!(
@@ -1511,9 +1533,84 @@ fn timed(cx: &mut Ctx, work: &std::path::Path) {
 		evs.push(format!("closed:{}", if r.closed { 1 } else { 0 }));
 		let sched_txt: Vec<String> = sched.iter().map(|(d, f)| format!("{}:{}", d, hex(f))).collect();
 		cx.out.line(&format!("codec timed {} [{}]", scn.conv.ver, sched_txt.join(",")), &format!("[{}]", evs.join(";")));
-		cx.out.raw(&format!("#STAT timed scenario {}: {} ms", scn.name, r.wall_ms));
+		cx.out.raw(&format!("#STAT {} scenario {}: {} ms", tag, scn.name, r.wall_ms));
 	}
-	cx.out.raw(&format!("#STAT timed: {} deliveries in {} ms wall clock ({} at a time)", scns.len(), wall, batch));
+	cx.out.raw(&format!("#STAT {}: {} deliveries in {} ms wall clock ({} at a time)", tag, scns.len(), wall, batch));
+}
+
+// ---------------------------------------------------------------------------------------------
+// attachments streamed after a message: every chunk-boundary size, in one burst and fragmented
+
+fn attachments(cx: &mut Ctx, work: &std::path::Path) {
+	const CHUNK: usize = 48_000;
+	let mut sizes: Vec<usize> = vec![0, 1, 47_999, 48_000, 48_001, 95_999, 96_000, 96_001, 144_000];
+	sizes.push(2 + cx.rng.below(150_000) as usize);
+	let mut scns: Vec<Scn> = vec![];
+	for (si, &n) in sizes.iter().enumerate() {
+		let data = cx.rng.bytes(n);
+		// the second archive after the Ping: small in the quick tier, another boundary size in the thorough one
+		let n2 = if cx.thorough { [CHUNK, 0, 96_000, 1, 48_001][si % 5] } else { [1_000, 0, 1][si % 3] };
+		let data2 = cx.rng.bytes(n2);
+		let ver = VERSIONS[si % 4];
+		let build = |cx: &mut Ctx| -> (Conv, usize) {
+			let mut c = Conv::new(ver);
+			let (att, _) = c.archive(&mut cx.rng, &data, work);
+			c.ping(&mut cx.rng);
+			c.archive(&mut cx.rng, &data2, work);
+			c.ping(&mut cx.rng);
+			(c, att)
+		};
+		// in one burst
+		let (c, att) = build(cx);
+		let len = c.stream.len();
+		scns.push(Scn { name: format!("TxHashSetArchive+{}+Ping+TxHashSetArchive+{}+Ping in one burst", n, n2), conv: c, cuts: vec![], outside: false });
+		// cut exactly at every chunk boundary (start, 48 000, 96 000, …, end) and one byte either side
+		let mut points: Vec<usize> = vec![];
+		let mut k = 0;
+		while k * CHUNK <= n {
+			let b = att + k * CHUNK;
+			for o in [b.wrapping_sub(1), b, b + 1] {
+				if o > 0 && o < len {
+					points.push(o);
+				}
+			}
+			k += 1;
+		}
+		for o in [(att + n).wrapping_sub(1), att + n, att + n + 1] {
+			if o > 0 && o < len {
+				points.push(o);
+			}
+		}
+		points.sort_unstable();
+		points.dedup();
+		let (c, _) = build(cx);
+		scns.push(Scn {
+			name: format!("TxHashSetArchive+{}+Ping+TxHashSetArchive+{}+Ping cut at every chunk boundary and one byte either side", n, n2),
+			conv: c,
+			cuts: points.iter().map(|&o| (o, 2)).collect(),
+			outside: false,
+		});
+		if cx.thorough {
+			// every one of those cuts on its own, and a cut in the middle of every chunk
+			let mut singles = points.clone();
+			let mut k = 0;
+			while k * CHUNK < n {
+				singles.push(att + k * CHUNK + (n - k * CHUNK).min(CHUNK) / 2);
+				k += 1;
+			}
+			singles.sort_unstable();
+			singles.dedup();
+			for o in singles {
+				if o == 0 || o >= len {
+					continue;
+				}
+				let (c, _) = build(cx);
+				scns.push(Scn { name: format!("TxHashSetArchive+{}+Ping+…, one cut at attachment offset {}", n, o as i64 - att as i64), conv: c, cuts: vec![(o, 2)], outside: false });
+			}
+		}
+	}
+	cx.out.raw(&format!("#STAT attach: attachment sizes {:?} (chunk size {})", sizes, CHUNK));
+	deliver_all(cx, &scns, work, "attach");
 }
 
 // ---------------------------------------------------------------------------------------------
@@ -1708,6 +1805,9 @@ fn main() {
 	}
 	if mode == "all" || mode == "timed" {
 		timed(&mut cx, &work);
+	}
+	if mode == "all" || mode == "attach" {
+		attachments(&mut cx, &work);
 	}
 	if mode == "all" || mode == "ring" {
 		nonce_ring(&mut cx);
